@@ -221,6 +221,16 @@ static int arena_make(arena_t *a, int mem, long n, const char *lay, int ndims, c
         nslots = a->off[n - 1] + 1;
         PMPI_Type_indexed((int)n, bl, ds, base, &a->dtype); PMPI_Type_commit(&a->dtype); a->dtype_derived = 1; a->bufcount = 1;
         free(bl); free(ds);
+    } else if (!strcmp(lay, "struct")) {
+        /* MPI_Type_create_struct over one base type: members of block lengths 2, 3, 1, 2, 3, 1 ... with a one-element gap between members */
+        int nm = 0, *bl = malloc(sizeof(int) * (n + 1)); MPI_Aint *ds = malloc(sizeof(MPI_Aint) * (n + 1)); MPI_Datatype *ts = malloc(sizeof(MPI_Datatype) * (n + 1));
+        long done = 0, pos = 0; static const int pat[3] = { 2, 3, 1 };
+        while (done < n) { int b = pat[nm % 3]; if (b > n - done) b = (int)(n - done); bl[nm] = b; ds[nm] = (MPI_Aint)pos * sz; ts[nm] = base;
+            for (k = 0; k < b; k++) a->off[done + k] = pos + k;
+            done += b; pos += b + 1; nm++; }
+        nslots = pos;
+        PMPI_Type_create_struct(nm, bl, ds, ts, &a->dtype); PMPI_Type_commit(&a->dtype); a->dtype_derived = 1; a->bufcount = 1;
+        free(bl); free(ds); free(ts);
     } else if (!strcmp(lay, "dtnull")) {
         for (k = 0; k < n; k++) a->off[k] = k;
         nslots = n; a->dtype = MPI_DATATYPE_NULL; a->bufcount = 0;
@@ -236,6 +246,9 @@ static int arena_make(arena_t *a, int mem, long n, const char *lay, int ndims, c
         if (!strcmp(lay, "cont1")) PMPI_Type_contiguous((int)n, MPI_INT, &twin);
         else if (!strcmp(lay, "cont2")) PMPI_Type_contiguous((int)(n / a->bufcount), MPI_INT, &twin);
         else if (!strcmp(lay, "idx")) { int *bl = malloc(sizeof(int) * n), *ds = malloc(sizeof(int) * n); for (k = 0; k < n; k++) { bl[k] = 1; ds[k] = (int)(2 * k + (k & 1)); } PMPI_Type_indexed((int)n, bl, ds, MPI_INT, &twin); free(bl); free(ds); }
+        else if (!strcmp(lay, "struct")) { int nm = 0, *bl = malloc(sizeof(int) * (n + 1)); MPI_Aint *ds = malloc(sizeof(MPI_Aint) * (n + 1)); MPI_Datatype *ts = malloc(sizeof(MPI_Datatype) * (n + 1)); long done = 0, pos = 0; static const int pat[3] = { 2, 3, 1 };
+            while (done < n) { int b = pat[nm % 3]; if (b > n - done) b = (int)(n - done); bl[nm] = b; ds[nm] = (MPI_Aint)pos * 4; ts[nm] = MPI_INT; done += b; pos += b + 1; nm++; }
+            PMPI_Type_create_struct(nm, bl, ds, ts, &twin); free(bl); free(ds); free(ts); }
         else { long B = 1, S = 2, nb; sscanf(strchr(lay, ':') + 1, "%ld:%ld", &B, &S); if (B < 1 || n % B) B = 1; if (S < B) S = B + 1; nb = n / B;
             if (lay[0] == 'v') PMPI_Type_vector((int)nb, (int)B, (int)S, MPI_INT, &twin);
             else if (lay[0] == 'h') PMPI_Type_create_hvector((int)nb, (int)B, (MPI_Aint)S * 4, MPI_INT, &twin);
@@ -292,9 +305,11 @@ static int get_ncid(void)
 }
 static void path_of(char *out, size_t n, const char *k)
 {
-    const char *p = arg(k);
+    const char *p = arg(k), *pre = "";
     if (!p) p = "f.nc";
-    if (p[0] == '/') snprintf(out, n, "%s", p);
-    else snprintf(out, n, "%s/c%d_%s", g_workdir, g_case, p);
+    /* "ufs:name": the MPI-IO file-system prefix in front of the same file (understood by ROMIO, stripped by the library for its POSIX calls) */
+    if (!strncmp(p, "ufs:", 4)) { pre = "ufs:"; p += 4; }
+    if (p[0] == '/') snprintf(out, n, "%s%s", pre, p);
+    else snprintf(out, n, "%s%s/c%d_%s", pre, g_workdir, g_case, p);
 }
 #define OUT(...) fprintf(g_log, __VA_ARGS__)
